@@ -2,6 +2,7 @@ import JominiModel.Proofs.TextTapeCutLex
 import JominiModel.Proofs.TextTapeStable
 import JominiModel.Proofs.TextTapeCutFields
 import JominiModel.Proofs.TextTapeCutTail
+import JominiModel.Proofs.TextTapePrefixB
 /-
 C19 (text tape parser): what the scalar scanners and the whole parser return on a truncated input.
 -/
@@ -356,5 +357,90 @@ example :
       .ok [.unquoted ⟨11, [97]⟩, .object 6 false, .unquoted ⟨8, [98]⟩, .unquoted ⟨6, [99]⟩,
         .unquoted ⟨4, [100]⟩, .unquoted ⟨2, [101]⟩, .endTok 1] false := by
   decide +kernel
+
+/-- C19 (text tape), **cuts on lexeme boundaries** — for every input and every cut whose
+continuation is empty or starts with a separator byte (`SepQ`: a boundary byte other than `=` and
+`[`, i.e. the cut prefix ends where a lexeme of the full input ends, or inside / in front of a blank
+or comment run): if the truncated input parses, then the full run passes through a Key state `st0`
+(after `j` iterations, cursor in front of the blanks `d0` and the continuation) and the truncated
+tape is EXACTLY the tape of that state — all tokens equal, positions equal (`Tok.shift` only
+accounts for positions being stored as distances to the end of the input) — or that tape with the
+EOF tolerance applied: the `End` of the ONE open top-level container appended and its `Object` token
+given its `end`.  Nothing is fabricated and nothing is re-typed; and every token of that tape that
+is neither its last token nor a still open container is final in the full tape as well. -/
+theorem C19_text_tape_boundary_cut (d : Bytes) (k : Nat) (T' T : List Tok) (b' b : Bool)
+    (hk : k ≤ d.length) (hbom : hasBom (d.take k) = hasBom d) (hsep : SepQ (d.drop k))
+    (h' : parse (d.take k) = .ok T' b') (h : parse d = .ok T b) :
+    ∃ (st0 : St) (d0 : Bytes) (j fuel : Nat) (bd : Bool),
+      StInv st0 ∧ st0.state = .key ∧ skipWs d0 = none ∧
+      (∀ F, run d.length (F + j) St.init (if hasBom d = true then d.drop 3 else d) =
+        run d.length F (st0.shift (d.length - k)) (d0 ++ d.drop k)) ∧
+      run d.length fuel (st0.shift (d.length - k)) (d0 ++ d.drop k) = .ok T bd ∧
+      ((st0.parent = 0 ∧ T' = st0.tape) ∨
+       (st0.parent ≠ 0 ∧ endOf st0.tape[st0.parent]? = 0 ∧
+         T' = (st0.tape ++ [Tok.endTok st0.parent]).set st0.parent (Tok.object st0.tape.length false))) ∧
+      st0.tape.length ≤ T.length ∧
+      (∀ i, i + 1 < st0.tape.length → NotOpen st0.tape i →
+        T[i]? = (st0.tape[i]?).map (Tok.shift (d.length - k))) := by
+  have hq : (d.drop k).length = d.length - k := by simp
+  unfold parse at h' h
+  simp only at h' h
+  rw [hbom] at h'
+  generalize hdp : (if hasBom d = true then List.drop 3 (d.take k) else d.take k) = dp at h'
+  generalize hdd : (if hasBom d = true then List.drop 3 d else d) = dd at h
+  have hsplit : dd = dp ++ d.drop k := by
+    rw [← hdp, ← hdd]
+    split
+    · next hb =>
+      have hk3 : 3 ≤ k := by
+        rcases Nat.lt_or_ge k 3 with hlt | hge
+        · exfalso
+          have : hasBom (d.take k) = false := by
+            simp only [hasBom, beq_eq_false_iff_ne, ne_eq]
+            intro h0
+            have := congrArg List.length h0
+            simp at this; omega
+          rw [hbom, hb] at this; simp at this
+        · exact hge
+      rw [← List.drop_append_of_le_length (by simp; omega), List.take_append_drop]
+    · exact (List.take_append_drop k d).symm
+  generalize hrp : run (d.take k).length (fuelFor dp) St.init dp = rp at h'
+  generalize hrd : run d.length (fuelFor dd) St.init dd = rd at h
+  have hrp' : ∃ bp, rp = .ok T' bp := by cases rp <;> simp [Res.withBom] at h'; exact ⟨_, by rw [h'.1]⟩
+  have hrd' : ∃ bd, rd = .ok T bd := by cases rd <;> simp [Res.withBom] at h; exact ⟨_, by rw [h.1]⟩
+  obtain ⟨bp, rfl⟩ := hrp'
+  obtain ⟨bd, rfl⟩ := hrd'
+  obtain ⟨j, st0, d0, hinv0, hsk0, heof, hlock⟩ :=
+    run_lockstepB (d.take k).length d.length (d.drop k) hsep (fuelFor dp) St.init dp _ _ hrp StInv.init
+  rw [hq, ← hsplit, show St.init.shift (d.length - k) = St.init from rfl] at hlock
+  have hD : run d.length (fuelFor dd) (st0.shift (d.length - k)) (d0 ++ d.drop k) = .ok T bd := by
+    have := hlock (fuelFor dd)
+    rw [run_more_fuel _ _ j _ _ _ hrd (by simp)] at this
+    exact this.symm
+  obtain ⟨hkey, _, hshape⟩ := atEof_shape heof
+  refine ⟨st0, d0, j, fuelFor dd, bd, hinv0, hkey, hsk0, hlock, hD, ?_, ?_, ?_⟩
+  · rcases hshape with ⟨h1, h2⟩ | ⟨h1, h2, _, h4⟩
+    · exact .inl ⟨h1, h2⟩
+    · exact .inr ⟨h1, h2, h4⟩
+  · have := run_len_le _ _ _ _ _ _ (hinv0.shift _) hD
+    simpa [St.shift_tape] using this
+  · intro i hi hn
+    have := run_settled _ _ _ _ _ _ i (hinv0.shift (d.length - k)) (by simpa [St.shift_tape] using hi)
+      (by simpa [St.shift_tape] using hn.shift (d.length - k)) hD
+    rw [this, St.shift_tape, getElem?_shift]
+
+/-- the hypotheses are satisfiable: `a={b=c d=e}` cut after `a={b=c` (the continuation starts with a
+blank): the truncated tape is the full run's tape at that point, `[a, O, b, c]`, with the open object
+closed by the end of the input -/
+example :
+    let d : Bytes := [97, 61, 123, 98, 61, 99, 32, 100, 61, 101, 125]
+    SepQ (d.drop 6) ∧ (∃ T' b', parse (d.take 6) = .ok T' b') ∧ (∃ T b, parse d = .ok T b) ∧
+      hasBom (d.take 6) = hasBom d :=
+  ⟨.inr ⟨32, _, rfl, by decide +kernel, by decide, by decide⟩,
+   ⟨[.unquoted ⟨6, [97]⟩, .object 4 false, .unquoted ⟨3, [98]⟩, .unquoted ⟨1, [99]⟩, .endTok 1], false,
+     by decide +kernel⟩,
+   ⟨[.unquoted ⟨11, [97]⟩, .object 6 false, .unquoted ⟨8, [98]⟩, .unquoted ⟨6, [99]⟩,
+      .unquoted ⟨4, [100]⟩, .unquoted ⟨2, [101]⟩, .endTok 1], false, by decide +kernel⟩,
+   by decide +kernel⟩
 
 end Jomini.TextTape
